@@ -41,21 +41,31 @@ CLAUSES = {
     27: 'C18_python (parameter file reads back equal)',
     28: 'C18_int_text / C18_float_text / C18_nonnumeric (_try_make_number: int, float, unchanged text)',
 }
-TRUSTED = ['json text layer (printer/parser, sort_keys), base64, ndarray.tobytes / np.frombuffer: '
-           'abstracted in the model (JSON trees; the base64 text of a buffer is an opaque leaf)',
-           'csv text layer (quoting, delimiters, line ends): abstracted (a file is the delimiter used '
-           'plus rows of cell texts); repr(float) and exec/eval of repr text: abstracted',
-           "C printf '%.nf' exactness and float(str) correct rounding (compared through the exact "
-           'rational half-ulp test near_dec)']
-ASSUMES = ['top-level keys: integers (any sign, after the fix) and strings that are not optionally-signed '
-           'digit strings; nested dictionaries have string keys; the marker keys __ndarray__ / '
-           '__qbytearray__ are reserved',
-           'numeric dtypes = bool, (u)int8..64, float16/32/64 in either byte order (complex and '
-           'longdouble scalars are not JSON numbers: outside the reading)',
-           'tables: >= 2 columns, field names are identifiers, string cells are non-empty and not '
-           'accepted by int()/float(); printable ASCII and tab in cells',
-           'parameter files: keys are lower-case identifiers that are not keywords; values are None, '
-           'bool, int, finite float, str and lists / string-keyed dicts of these']
+TRUSTED = ['oracles of the theorems (universally quantified records; hypotheses Codec_OK / Text_OK / Csv_OK of '
+           'C18/Spec.v; shown satisfiable by the reference oracles, C18_oracles_satisfiable): the JSON text layer '
+           '(json.dump with indent / sort_keys, json.loads: parsing the printed text of a tree with sorted object '
+           'members gives the tree, the text is non-empty), base64 and buffers (b64decode(b64encode(b)) = b; '
+           'np.frombuffer(np.ascontiguousarray(a).data, a.dtype) = the C-order elements of a; str(dtype) / '
+           'np.dtype(name) as tabulated), the csv text layer (reading with the writing delimiter returns the written '
+           'cells, cells without NUL/CR/LF; the first line contains a tab iff delimiter is tab with >= 2 header '
+           'cells or a header cell contains a tab)',
+           'abstract constructors of the model: repr(float) in a csv cell reads back as that float and is rejected '
+           'by int(); str() of a non-str parameter value evaluates (exec) to an equal value for None/bool/int/finite '
+           'float and lists/dicts of plain values; the line structure of the exec-ed file',
+           "C printf '%.nf' being the exact round-half-even decimal and float(str) being correctly rounded "
+           '(the observed float is compared with the exact decimal of the model by the rational half-ulp test near_dec)',
+           'int()/float()/str(int)/repr(str)/string-literal evaluation are MODELLED on characters (ASCII; bytes >= 128 '
+           'of UTF-8 text are copied); the models are tied to CPython by the number and python cases of the correspondence']
+ASSUMES = ['top-level keys: integers (any sign) and strings that are not optionally-signed digit strings; nested '
+           'dictionaries have string keys; the marker keys __ndarray__ / __qbytearray__ are reserved; a dict is '
+           'represented by its key-sorted association list (dict equality cannot see insertion order)',
+           'numeric dtypes = bool, (u)int8..64, float16/32/64 in either byte order, elements in the range of the '
+           'dtype (complex and longdouble are not JSON numbers: outside the reading)',
+           'tables: >= 2 columns, n_significant_figures >= 1, field names without tab / line break, string cells '
+           'non-empty, rejected by both int() and float(), without NUL / CR / LF (printable ASCII and tab in the '
+           'correspondence)',
+           'parameter files: keys are lower-case ASCII identifiers that are not keywords; values are None, bool, int, '
+           'finite float, str (any characters) and lists / string-keyed dicts of these']
 TIMEOUT = {'quick': 10, 'thorough': 30}
 
 INF = float('inf')
@@ -753,11 +763,13 @@ def encode(case, obs):
             cobs = 'ObsCrash' if bad else q.app('ObsSimple', cs(obs[1]), q.lst(
                 obs[2], lambda kv: q.pair(q.z(kv[0][1]), _cell(kv[1]))))
     elif k == 'python':
-        cin = q.app('InPython', q.lst(i['items'], lambda kv: q.pair(cs(kv[0]), _val(kv[1]))))
+        # dict equality ignores insertion order: canonical key order on both sides
+        cin = q.app('InPython', q.lst(sorted(i['items'], key=lambda kv: kv[0]), lambda kv: q.pair(cs(kv[0]), _val(kv[1]))))
         if crash:
             cobs = 'ObsCrash'
         else:
-            cobs = q.app('ObsPython', q.lst(obs[1], lambda kv: q.pair(cs(kv[0][1]), _val(kv[1]))))
+            cobs = q.app('ObsPython', q.lst(sorted(obs[1], key=lambda kv: str(kv[0][1])),
+                                            lambda kv: q.pair(cs(kv[0][1]), _val(kv[1]))))
     elif k == 'number':
         cin = q.app('InNumber', cs(i['s']))
         cobs = 'ObsCrash' if crash else q.app('ObsNumber', _cell(obs[1]))
